@@ -1,16 +1,20 @@
 (* C07: decoding arbitrary bytes never panics or runs away. *)
-Require Import Bebop.wire.Wire Bebop.wire.ByteDec Bebop.wire.ByteDecFacts Bebop.props.WireExample.
+Require Import Bebop.wire.Wire Bebop.wire.ByteDec Bebop.wire.ByteDecFacts Bebop.wire.StreamDec Bebop.wire.FaultFacts Bebop.props.WireExample.
 
-(* For EVERY byte string, every schema and type, every fuel: the checked byte-path decoder returns Ok, Err or - with a
+(* "Partial": termination is by fuel (that the fuel the harness passes suffices is observed, not proved), and the
+   allocation bound is the known finding below.
+   For EVERY byte string, every schema and type, every fuel: the checked byte-path decoder returns Ok, Err or - with a
    proportionality limit - Excess at a named allocation site; its only possible panic is a reference to an undefined type,
    which Validate excludes.  The run with the limit is the run without it unless it reports Excess. *)
 Definition C07_partial_statement : Prop :=
   (forall s c, safe c = true -> forall fuel t bs, no_panic (dec3 s c fuel t bs)) /\
   (forall s sf k fuel t bs, not_excess (dec3 s {| safe := sf; lim := Some k |} fuel t bs) = true ->
-     dec3 s {| safe := sf; lim := None |} fuel t bs = dec3 s {| safe := sf; lim := Some k |} fuel t bs).
+     dec3 s {| safe := sf; lim := None |} fuel t bs = dec3 s {| safe := sf; lim := Some k |} fuel t bs) /\
+  (* DecodeBebop: for EVERY reader state - any data, any schedule, any limit stack, latch set or not - the same *)
+  (forall s lim fuel t r, no_panic (sdec s lim fuel t r)).
 
 Theorem C07_partial : C07_partial_statement.
-Proof. split; [exact checked_decoder_never_panics|exact guard_only_exits_early]. Qed.
+Proof. split; [exact checked_decoder_never_panics|split; [exact guard_only_exits_early|exact stream_decoder_never_panics]]. Qed.
 
 (* the Excess outcomes are real: 8 bytes make the generated code ask for 2^31 - 1 elements before any check (known finding) *)
 Example C07_excess_witness :
